@@ -41,6 +41,19 @@ try:
         problems.append(f"after an external write of 'busy': {flags()}")
 except Exception as e:  # noqa: BLE001
     problems.append(f"raised {type(e).__name__}: {e}")
+# the DEFAULT model stores the state under any state_field name, not only `state`
+try:
+    class PlainC10f(StateMachine):
+        idle = State(initial=True)
+        busy = State()
+        start = idle.to(busy)
+        stop = busy.to(idle)
+    sm2 = PlainC10f(state_field="workflow_step")
+    sm2.start()
+    if getattr(sm2.model, "workflow_step", None) != "busy" or sm2.current_state.id != "busy":
+        problems.append(f"default model with state_field='workflow_step': field {getattr(sm2.model, 'workflow_step', None)!r}, state {sm2.current_state.id!r}")
+except Exception as e:  # noqa: BLE001
+    problems.append(f"default model with a custom state_field: raised {type(e).__name__}: {e}")
 for p in problems:
     print("VIOLATED:", p)
 print("ok" if not problems else f"{len(problems)} problems")
